@@ -135,7 +135,17 @@ func judgeC02(rep *core.Report, fi *FuncInfo, recs []*execmon.Rec) {
 				if !strings.Contains(sk, ": nilpath:") {
 					continue
 				}
+				// is the item an explicit :map/:conv path (E-g) or something the tool chose itself?
+				p0 := sk[:strings.Index(sk, ":")]
+				isExplicit := false
+				for _, pr := range fi.Method.Probes {
+					if pr.Dst == p0 && (pr.Mech == "map" || pr.Mech == "conv" || strings.HasSuffix(pr.Extra, "/map") || strings.HasSuffix(pr.Extra, "/conv")) {
+						isExplicit = true
+					}
+				}
 				switch {
+				case isExplicit:
+					// not a cause the tool is answerable for
 				case strings.Contains(sk, "value method String"):
 					causes["stringer-on-nil-pointer"] = true
 				case strings.Contains(sk, "value method"):
